@@ -3,6 +3,8 @@
 package influxql
 
 import (
+	"strings"
+
 	"github.com/openGemini/openGemini/lib/verifrt"
 )
 
@@ -49,5 +51,49 @@ func VerifC12ReduceShip() {
 	shipped, err := ParseExpr(text)
 	verifrt.Assert(err == nil, "the shipped condition does not parse")
 	verifrt.Assert(verifC12Eval(shipped, x, y) == want, "the condition the store parses evaluates differently from the planned condition")
+	verifrt.Reach("end")
+}
+
+var verifC12ArithText = []string{"+", "-", "*", "/", "%"}
+
+// VerifC12ArithShip: a condition over an arithmetic expression with two operators, written with or without
+// parentheses, is parsed from the statement text by the statement grammar (as the coordinator does),
+// printed, and parsed again by ParseExpr (as the store does). For every pair of operators from + - * / %
+// and every value of the variables, the arithmetic the store sees evaluates to what the coordinator planned:
+// the two parsers agree on precedence and associativity.
+func VerifC12ArithShip() {
+	x, y := verifrt.Int64("x"), verifrt.Int64("y")
+	verifrt.Assume(x >= -8 && x <= 8 && y >= -8 && y <= 8)
+	o1 := verifC12ArithText[verifrt.Choose("op1", 5)]
+	o2 := verifC12ArithText[verifrt.Choose("op2", 5)]
+	var e string
+	switch verifrt.Choose("shape", 4) {
+	case 0:
+		e = "x " + o1 + " y " + o2 + " 3"
+	case 1:
+		e = "(x " + o1 + " y) " + o2 + " 3"
+	case 2:
+		e = "x " + o1 + " (y " + o2 + " 3)"
+	default:
+		e = "5 " + o1 + " x " + o2 + " y"
+	}
+	// the generated (yacc) statement parser, driven the way the HTTP handler drives it
+	yy := &YyParser{Query: Query{}}
+	yy.Scanner = NewScanner(strings.NewReader("select v from m where " + e + " > 1"))
+	yy.ParseTokens()
+	query, err := yy.GetQuery()
+	verifrt.Assert(err == nil && len(query.Statements) == 1, "setup: the statement does not parse")
+	sel, ok := query.Statements[0].(*SelectStatement)
+	verifrt.Assert(ok && sel.Condition != nil, "setup: not a select with a condition")
+	planned, ok := sel.Condition.(*BinaryExpr)
+	verifrt.Assert(ok && planned.Op == GT, "setup: the condition is not the comparison that was written")
+	shipped, err := ParseExpr(sel.Condition.String())
+	verifrt.Assert(err == nil, "the shipped condition does not parse")
+	got, ok := shipped.(*BinaryExpr)
+	verifrt.Assert(ok && got.Op == GT, "the store parses the shipped comparison as something else")
+	if ok {
+		verifrt.Assert(verifC12Eval(got.LHS, x, y) == verifC12Eval(planned.LHS, x, y), "the arithmetic the store parses evaluates differently from the planned arithmetic")
+		verifrt.Assert(verifC12Eval(got.RHS, x, y) == verifC12Eval(planned.RHS, x, y), "the comparison operand the store parses differs from the planned one")
+	}
 	verifrt.Reach("end")
 }
